@@ -20,9 +20,11 @@ Formulas == <<
   AsgT("$b", <<"Bin", "+", IdT("$a"), IdT("x")>>)                   \* $b = $a + x
 >>
 
-HeapDesc == [ m1 |-> [x |-> <<"int", 1>>, fail |-> <<"func", "fail">>],
-              m2 |-> [x |-> <<"int", 2>>, fail |-> <<"func", "fail">>] @@ ("$a" :> <<"int", 9>>) ]
-MapIds == {"m1", "m2"}
+HeapDesc == [ m1 |-> [x |-> <<"int64", FALSE, <<9,0,0,7,1,9,9,2,5,4,7,4,0,9,9,3>>>>,     \* 2^53 + 1: a local must keep it exactly
+                        fail |-> <<"func", "fail">>],
+              m2 |-> [x |-> <<"int", 2>>, fail |-> <<"func", "fail">>] @@ ("$a" :> <<"int", 9>>),
+              m3 |-> <<>> ]          \* a caller's map that is installed while still empty
+MapIds == {"m1", "m2", "m3"}
 Keys == {"x", "$a"}
 AuxKeys == {"k", "x"}
 V5 == <<"int", 5>>
